@@ -192,6 +192,23 @@ CHECKS['C07'] = dict(
     assumptions=['names and patterns over the alphabet {W,w,a,b,1,2,0,space}: ASCII only, so Unicode case folding plays no part'],
 )
 
+CHECKS['C12'] = dict(
+    pkg='c12', level='exploration',
+    technique='property-based testing over an in-process cluster: rapid-generated (instances, ids, n, t, initiator, commit-reply order, tampered commit reply), generation through the real accountmanager/receiver handlers, algebraic oracle over every participant\'s stored account and every t- and (t-1)-subset of partial signatures',
+    level_text=('Clusters of 2-7 real instances (own wallet store, fetcher, signer stack, process service, receiver handler) joined by a harness network that turns every sender call into the '
+                'protobuf request and hands it to the recipient\'s real receiver handler under the sender\'s certificate name. (n,t) covers 2..7 x 0..8; ids small/sparse/>=2^63/near 2^64; '
+                'any initiator; commit replies released in a generated permutation; optionally one tampered commit reply. On success: n/2<t<=n; every participant (re-opened from its store) '
+                'and its fetcher hold the account with the returned composite key, equal vector of length t, threshold, participant list, share key = vector evaluated at its id; partial '
+                'signatures obtained at once through each signer service verify under the share keys, every t-subset recovers to a signature valid under the composite key, every '
+                '(t-1)-subset does not; each lister shows the account; bystanders hold nothing. Out-of-bound and tampered requests must fail.'),
+    level_note='Cryptographic soundness of Feldman VSS/BLS (herumi) is trusted; only the protocol use is tested. Key material comes from the library CSPRNG (oracles are algebraic).',
+    parts=[part('TestC12', 120, 1500, qshards=2)],
+    rule=('a case is one generation request on a fresh cluster; non-trivial iff it succeeded with n >= 3 or was refused for violating n/2 < t <= n; distinct = sha256 of the case JSON'),
+    essential=['successful-generation', 'refused-outside-bound', 'initiator-not-a-participant', 'success-with-steered-commit-order', 'tampered-commit-reply-delivered',
+               'ids-ge2^63', 'ids-near2^64', 'signature-subsets-checked'],
+    assumptions=['herumi BLS is trusted'],
+)
+
 ENGINES = [
     dict(name='rapid-harness', path='/verif/harness', kind_free_text='Go test module (pgregory.net/rapid v1.3.0) compiled against /repo with -tags verif; driver /verif/check shards by seed, merges coverage, writes evidence',
          serves_properties=sorted(CHECKS)),
